@@ -91,7 +91,7 @@ Section WithBuiltins.
 
   (* is_prefix_defined *)
   Definition is_prefix_defined (z : zipper) (p : prefixid) : bool :=
-    existsb (fun a => has_prefix p (declarations a)) (ancestors z) || has_prefix p base_prefixes.
+    match namespace_for_prefix z p with Some _ => true | None => false end.
 
   (* full_name(node, name): None = Err(MissingPrefix); Some (prefix option) otherwise *)
   Definition full_name_prefix (z : zipper) (name : nameid) : option (option prefixid) :=
